@@ -112,7 +112,12 @@ def small_int_product(case, subs, scale, observed) -> bool:
                 vals = []
                 for v, key in subs:
                     fa = case["factors"][key]
-                    nat = gen.eval_num_label(fa["label"], case["frame"], case.get("ctx"), native=True) if fa["kind"] == "num" else v.astype(dt)
+                    if fa["kind"] == "num":
+                        nat = gen.eval_num_label(fa["label"], case["frame"], case.get("ctx"), native=True)
+                    elif fa["kind"] == "cat":
+                        nat = v.astype(dt)  # indicator columns take part in the integer arithmetic
+                    else:
+                        nat = v  # multi-column transforms return floats
                     vals.append(nat)
                 for seq in (vals, vals[::-1]):
                     prod = seq[0]
